@@ -3,7 +3,7 @@
 # Confirms: patch applies+compiles, workspace tests have the same failing set as the baseline list,
 # demo fails with the change and passes without it.
 set -u
-ID="$1"; M="$2"; WT="/tmp/wt/$ID"; OUT="/tmp/seeded_out/$ID/$M"
+ID="$1"; M="$2"; DEMOARG="${3:-}"; WT="/tmp/wt/$ID"; OUT="/tmp/seeded_out/$ID/$M"
 cd "$WT" || exit 2
 git checkout -q -- . ; git clean -fdq -e target
 CRATE=$(grep -o 'versatiles[a-z_]*/tests/demo.rs' "$OUT/meta.json" | head -1 | cut -d/ -f1)
@@ -18,7 +18,8 @@ run_demo() {
     cargo test --offline -p "$CRATE" --test demo > "$OUT/$1.log" 2>&1; RC=$?
     rm -f "$WT/$CRATE/tests/demo.rs"
   else
-    bash "$OUT/demo.sh" > "$OUT/$1.log" 2>&1; RC=$?
+    ( cd "$WT" && cargo build --offline --bin versatiles > "$OUT/$1.build.log" 2>&1 )
+    bash "$OUT/demo.sh" $DEMOARG > "$OUT/$1.log" 2>&1; RC=$?
   fi
   echo $RC
 }
